@@ -156,7 +156,7 @@ pub fn run_case(case: &HistCase, st: &mut Stats, known_open: &dyn Fn(&str) -> bo
             other => other,
         };
     }
-    if !matches!(last.code, op::COPY | op::COPY_AT) {
+    if !matches!(last.code, op::COPY | op::COPY_AT | op::COPY_X) {
         return Ok(());
     }
     let Some((pid, sid)) = w.peek_copy_move(last) else { return Ok(()) };
@@ -431,8 +431,8 @@ pub fn run(ctx: &Ctx) {
     );
     let known_open = |sig: &str| ctx.is_known_open(sig);
     let cases = ctx.tier.pick(4_000u64, 120_000u64);
-    let prep = vec![(op::NAMED, 8), (op::CREATE, 8), (op::SET_DATA, 6), (op::SET_REF, 4), (op::SET_ATTR, 4), (op::SET_COMMENT, 2), (op::MOVE, 2), (op::COPY, 2), (op::CREATE_FILE, 2), (op::ADD_TO_FILE, 3), (op::REMOVE_FROM_FILE, 1), (op::LOAD, 2), (op::RENAME, 2)];
-    let fin = vec![(op::COPY, 8), (op::COPY_AT, 3), (op::DUPLICATE, 3)];
+    let prep = vec![(op::NAMED, 8), (op::CREATE, 8), (op::SET_DATA, 6), (op::SET_REF, 4), (op::SET_ATTR, 10), (op::SET_COMMENT, 2), (op::MOVE, 2), (op::COPY, 2), (op::CREATE_FILE, 2), (op::ADD_TO_FILE, 3), (op::REMOVE_FROM_FILE, 1), (op::LOAD, 2), (op::RENAME, 2)];
+    let fin = vec![(op::COPY, 6), (op::COPY_AT, 3), (op::COPY_X, 6), (op::DUPLICATE, 3)];
     let strat = (0u32..12, proptest::collection::vec(op_strategy(&prep), 0..12), op_strategy(&fin));
     run_prop(ctx, "copy-duplicate", cases, strat, |(fixture, prep_ops, last), st| {
         let mut ops = prep_ops.clone();
